@@ -7,6 +7,7 @@ import builtins
 from collections import namedtuple
 
 from .. import peg as g
+from ..contexts.ast import AST
 from ..objectmodel import Node
 from ..util import deprecated_params, safe_name, topsort
 from ..util.indent import IndentPrintMixin
@@ -129,8 +130,12 @@ class PythonModelGenerator(IndentPrintMixin):
         if not specs:
             return
         spec = specs[0]
+        # NOTE: attributes are filled from the AST, whose keys avoid dict's own attributes
         arguments = sorted(
-            {safe_name(d) for d in rule.defines_single + rule.defines_list}
+            {
+                safe_name(AST()._safekey(d))
+                for d in rule.defines_single + rule.defines_list
+            }
         )
 
         self.print()
